@@ -1,64 +1,74 @@
 import SqlgrepModel.Lemmas.AggJoin
 import SqlgrepModel.Lemmas.AggFindings
+import SqlgrepModel.Lemmas.AggFollowExec
+import SqlgrepModel.Lemmas.NoiseFollow
 /-
-Follow mode (update + result per line) for an aggregate statement over a JOIN: the rows of a line's join partners go
-through update + result one by one and the results are concatenated (finding D61); each of them is the table a batch
-run would show at that point.
+Line-at-a-time execution (update + result per line, `ExecutionConfig::default()`) of an aggregate statement, WITH OR
+WITHOUT A JOIN, against batch execution (update only per line, one result at the end), for any join index: every
+partner row of the line updates the state, then — iff one of them updated — ONE table is computed (D61 repaired: it
+used to be one table per partner, concatenated). That table is the batch table over everything fed so far.
+
+`feedLines` (Lemmas/NoiseFollow.lean) is the engine's answers for lines fed one at a time; the `incr` driver is a
+rendering of it (`incrLoop_eq_feedLines`, `Props.C06.incr_driver_is_feedLines`). The batch side is the executed `runBatch`.
 -/
 set_option linter.unusedSimpArgs false
 namespace Sqlgrep
 open Value Spec.Agg
 
-/-! ### follow mode over a JOIN: one table per join partner -/
+/-! ### the per-line step in both modes -/
 
-/-- batch side: after each admitted row of `envs` (update only), the table a result would show then -/
-def tablesAfter (O : Oracles) (q : AggStmt) : List Env → AggState → Outcome (AggState × List RowOut)
-  | [], sb => .ok (sb, [])
-  | env :: rest, sb =>
-    (aggUpdateRow O q sb env).bind (fun p =>
-      if p.2 then
-        (aggResult O q p.1).bind (fun r => (tablesAfter O q rest p.1).bind (fun x => .ok (x.1, r.2 :: x.2)))
-      else tablesAfter O q rest p.1)
-
-def extendAll (acc : Option RowOut) (ts : List RowOut) : Option RowOut := ts.foldl (fun a t => extendOut a (some t)) acc
-
-/-- `ExecutionEngine::execute(line, default config)` for an aggregate statement over a JOIN: the rows of the line's join
-partners go one by one through update + result, the results are concatenated -/
+/-- `ExecutionEngine::execute(line, default config)` for an aggregate statement: every environment of the line (one per
+join partner; exactly one without a join) goes through `execute_update`, then one `execute_result` iff one of them updated -/
 theorem executeLine_follow_join (O : Oracles) (qy : Query) (q : AggStmt) (idx : JoinIndex) (es : EngineState) (l : Line)
     (hq : qy.stmt = .aggregate q) (hadm : anyResult l.row = true) :
     executeLine O qy idx true es l =
       (lineEnvs qy idx false l).bind (fun envs =>
-        (executeLine.go O q envs es.agg none).bind (fun p => .ok (updateLimit false q.limit { es with agg := p.1 } p.2))) := by
+        (aggEnvs O q envs es.agg false).bind (fun p =>
+          if p.2 then (aggResult O q p.1).bind (fun r => .ok (updateLimit false q.limit { es with agg := r.1 } (some r.2)))
+          else .ok (updateLimit false q.limit { es with agg := p.1 } none))) := by
   simp only [executeLine, hq, hadm, Bool.not_true, Bool.false_eq_true, if_false, bind, if_true, pure]
 
-/-- **follow mode, one line with several rows** (a JOIN's partners): the refresh is the concatenation of the tables a
-batch run would show after each admitted partner row — the LAST of them is the batch table over everything fed so far -/
-theorem go_tables {O : Oracles} {q : AggStmt} (envs : List (Env × List String)) {sf sb sf' sb' : AggState}
-    {S K : List (List Value)} (h : Sim2 q sf sb S) (hS : ∀ k ∈ S, k ∈ K)
-    (hK : ∀ k ∈ groupKeysOf O q (envs.map (·.1)), k ∈ K) (hex : KeysExact K)
-    {acc r : Option RowOut} {ts : List RowOut}
-    (hf : executeLine.go O q envs sf acc = .ok (sf', r)) (hb : tablesAfter O q (envs.map (·.1)) sb = .ok (sb', ts)) :
-    r = extendAll acc ts ∧ ∃ S', Sim2 q sf' sb' S' ∧ ∀ k ∈ S', k ∈ K := by
-  induction envs generalizing sf sb S acc ts with
+/-- `execute(line, update-only config)`: every environment of the line goes through `execute_update`, nothing is shown -/
+theorem executeLine_batch_join (O : Oracles) (qy : Query) (q : AggStmt) (idx : JoinIndex) (es : EngineState) (l : Line)
+    (hq : qy.stmt = .aggregate q) (hadm : anyResult l.row = true) :
+    executeLine O qy idx false es l =
+      (lineEnvs qy idx false l).bind (fun envs =>
+        (aggEnvs O q envs es.agg false).bind (fun p =>
+          .ok ({ es with agg := p.1 }, { result := none, reachedLimit := false }))) := by
+  simp only [executeLine, hq, hadm, Bool.not_true, Bool.false_eq_true, if_false, bind, pure]
+
+/-- a line that is not admitted: no answer, no state change, in either mode -/
+theorem executeLine_agg_not_admitted (O : Oracles) (qy : Query) (q : AggStmt) (idx : JoinIndex) (w : Bool) (es : EngineState)
+    (l : Line) (hq : qy.stmt = .aggregate q) (hlim : q.limit = none) (hadm : anyResult l.row = false) :
+    executeLine O qy idx w es l = .ok (es, { result := none, reachedLimit := false }) := by
+  simp only [executeLine, hq, hadm, Bool.not_false, if_true, updateLimit, hlim, Nat.add_zero]
+  cases w <;> rfl
+
+/-! ### the same partner rows fed to the follow-mode and to the batch-mode state -/
+
+theorem aggEnvs_sim2 {O : Oracles} {q : AggStmt} (envs : List (Env × List String)) {sf sb sf' sb' : AggState}
+    {S K : List (List Value)} {any u u' : Bool} (h : Sim2 q sf sb S) (hS : ∀ k ∈ S, k ∈ K)
+    (hK : ∀ k ∈ groupKeysOf O q (envs.map (·.1)), k ∈ K)
+    (hf : aggEnvs O q envs sf any = .ok (sf', u)) (hb : aggEnvs O q envs sb any = .ok (sb', u')) :
+    u = u' ∧ ∃ S', Sim2 q sf' sb' S' ∧ ∀ k ∈ S', k ∈ K := by
+  induction envs generalizing sf sb S any with
   | nil =>
-    simp only [executeLine.go, Outcome.ok.injEq, Prod.mk.injEq] at hf
-    simp only [List.map_nil, tablesAfter, Outcome.ok.injEq, Prod.mk.injEq] at hb
+    simp only [aggEnvs, Outcome.ok.injEq, Prod.mk.injEq] at hf hb
     obtain ⟨h1, h2⟩ := hf
     obtain ⟨h3, h4⟩ := hb
     subst h1; subst h2; subst h3; subst h4
     exact ⟨rfl, S, h, hS⟩
   | cons e rest ih =>
     obtain ⟨env, keys⟩ := e
-    simp only [executeLine.go, bind] at hf
-    simp only [List.map_cons, tablesAfter] at hb
-    obtain ⟨⟨sf1, u⟩, hfu, hf2⟩ := obind_ok hf
-    obtain ⟨⟨sb1, u'⟩, hbu, hb2⟩ := obind_ok hb
-    obtain ⟨hu, S1, hsim1, hsub, hnew⟩ := sim2_step h hfu hbu
+    simp only [aggEnvs, bind] at hf hb
+    obtain ⟨⟨sf1, uf⟩, hfu, hf2⟩ := obind_ok hf
+    obtain ⟨⟨sb1, ub⟩, hbu, hb2⟩ := obind_ok hb
+    obtain ⟨hu, S1, hsim1, _, hnew⟩ := sim2_step h hfu hbu
     subst hu
     have hS1 : ∀ k ∈ S1, k ∈ K := by
       intro k hk
       rcases hnew k hk with h1 | h1
-      · exact hS k (h1)
+      · exact hS k h1
       · exact hK k (by simp [groupKeysOf, h1])
     have hKrest : ∀ k ∈ groupKeysOf O q (rest.map (·.1)), k ∈ K := by
       intro k hk
@@ -67,26 +77,394 @@ theorem go_tables {O : Oracles} {q : AggStmt} (envs : List (Env × List String))
       cases keyOf O q env with
       | none => exact hk
       | some k0 => exact List.mem_cons_of_mem _ hk
+    exact ih hsim1 hS1 hKrest hf2 hb2
+
+/-- partner rows none of which updated leave the state as it is -/
+theorem aggEnvs_unchanged {O : Oracles} {q : AggStmt} (envs : List (Env × List String)) {st st' : AggState} {any : Bool}
+    (h : aggEnvs O q envs st any = .ok (st', false)) : st' = st := by
+  induction envs generalizing st any with
+  | nil =>
+    simp only [aggEnvs, Outcome.ok.injEq, Prod.mk.injEq] at h
+    exact h.1.symm
+  | cons e rest ih =>
+    obtain ⟨env, keys⟩ := e
+    simp only [aggEnvs, bind] at h
+    obtain ⟨⟨s1, u⟩, hu, h2⟩ := obind_ok h
+    have h3 := ih h2
     cases u with
     | false =>
-      simp only [Bool.false_eq_true, if_false] at hf2 hb2
-      exact ih hsim1 hS1 hKrest hf2 hb2
+      obtain ⟨_, hfalse, _⟩ := aggUpdateRow_eq hu
+      rw [h3, hfalse rfl]
     | true =>
-      simp only [if_true] at hf2 hb2
-      obtain ⟨⟨sf2, outf⟩, hrf, hf3⟩ := obind_ok hf2
-      obtain ⟨⟨sb2, outb⟩, hrb, hb3⟩ := obind_ok hb2
-      obtain ⟨⟨sb3, ts'⟩, hb4, hb5⟩ := obind_ok hb3
-      simp only [Outcome.ok.injEq, Prod.mk.injEq] at hb5
-      obtain ⟨hb6, hb7⟩ := hb5
-      subst hb6; subst hb7
-      -- the two results show the same table
+      -- `any || true = true` can never end as `false`
+      exfalso
+      have : ∀ (es : List (Env × List String)) (s s' : AggState), aggEnvs O q es s true ≠ .ok (s', false) := by
+        intro es
+        induction es with
+        | nil => intro s s' hh; simp [aggEnvs] at hh
+        | cons e' r' ih' =>
+          intro s s' hh
+          obtain ⟨env', _⟩ := e'
+          simp only [aggEnvs, bind] at hh
+          obtain ⟨⟨s2, u2⟩, _, hh2⟩ := obind_ok hh
+          simp only [Bool.true_or] at hh2
+          exact ih' _ _ hh2
+      simp only [Bool.or_true] at h2
+      exact this _ _ _ h2
+
+/-- **one line, both modes.** The follow-mode engine state is similar to the batch-mode engine state (after the same
+lines); the same line goes through `execute` with the default configuration on the one and with the update-only
+configuration on the other (no LIMIT; any join index). Then the states are similar again, and either
+* the follow-mode answer carries a table, and that table is what `execute_result` shows on the batch-mode state after
+  this line — the batch table over everything fed so far, for a line with SEVERAL join partners too; or
+* it carries none, and neither aggregation state changed (no partner, no admitted row, or WHERE rejected every row). -/
+theorem line_sim {O : Oracles} {qy : Query} {q : AggStmt} (hq : qy.stmt = .aggregate q) (hlim : q.limit = none)
+    (idx : JoinIndex) (l : Line) {esf esb esf' esb' : EngineState} {lo lob : LineOut} {S K : List (List Value)}
+    (h : Sim2 q esf.agg esb.agg S) (hS : ∀ k ∈ S, k ∈ K)
+    (hK : ∀ envs, lineEnvs qy idx false l = .ok envs → ∀ k ∈ groupKeysOf O q (envs.map (·.1)), k ∈ K)
+    (hex : KeysExact K)
+    (hf : executeLine O qy idx true esf l = .ok (esf', lo)) (hb : executeLine O qy idx false esb l = .ok (esb', lob)) :
+    (∃ S', Sim2 q esf'.agg esb'.agg S' ∧ ∀ k ∈ S', k ∈ K) ∧
+    ((∃ out, lo.result = some out ∧ finalResult O q esb' = .ok out) ∨
+     (lo.result = none ∧ esf'.agg = esf.agg ∧ esb'.agg = esb.agg)) := by
+  by_cases hadm : anyResult l.row = true
+  · rw [executeLine_follow_join O qy q idx esf l hq hadm] at hf
+    rw [executeLine_batch_join O qy q idx esb l hq hadm] at hb
+    obtain ⟨envs, henv, hf⟩ := obind_ok hf
+    rw [henv] at hb
+    simp only [Outcome.bind] at hb
+    obtain ⟨⟨sf1, u⟩, hfa, hf⟩ := obind_ok hf
+    obtain ⟨⟨sb1, u'⟩, hba, hb⟩ := obind_ok hb
+    simp only [Outcome.ok.injEq, Prod.mk.injEq] at hb
+    obtain ⟨hb1, _⟩ := hb
+    subst hb1
+    obtain ⟨hu, S1, hsim1, hS1⟩ := aggEnvs_sim2 envs h hS (hK envs henv) hfa hba
+    subst hu
+    cases u with
+    | false =>
+      simp only [Bool.false_eq_true, if_false, updateLimit, hlim, Nat.add_zero, Outcome.ok.injEq, Prod.mk.injEq] at hf
+      obtain ⟨hf1, hf2⟩ := hf
+      subst hf1; subst hf2
+      refine ⟨⟨S1, hsim1, hS1⟩, Or.inr ⟨rfl, aggEnvs_unchanged envs hfa, aggEnvs_unchanged envs hba⟩⟩
+    | true =>
+      simp only [if_true] at hf
+      obtain ⟨⟨sf2, out⟩, hres, hf⟩ := obind_ok hf
+      simp only [updateLimit, hlim, Outcome.ok.injEq, Prod.mk.injEq] at hf
+      obtain ⟨hf1, hf2⟩ := hf
+      subst hf1; subst hf2
       have hexS : KeysExact S1 := fun a ha b hb' hab => hex a (hS1 a ha) b (hS1 b hb') hab
       have hsame := aggResult_sim2 (O := O) hsim1 hexS
-      rw [hrf, hrb] at hsame
-      simp only [Outcome.bind, Outcome.ok.injEq] at hsame
-      subst hsame
-      have hsim2 : Sim2 q sf2 sb1 S1 := by rw [aggResult_state hrf]; exact sim2_publish hsim1
-      obtain ⟨hr, S', hs', hk'⟩ := ih hsim2 hS1 hKrest hf3 hb4
-      exact ⟨by rw [hr]; rfl, S', hs', hk'⟩
+      rw [hres] at hsame
+      simp only [Outcome.bind] at hsame
+      refine ⟨⟨S1, by simpa [aggResult_state hres] using sim2_publish hsim1, hS1⟩, Or.inl ⟨out, rfl, ?_⟩⟩
+      cases hrb : aggResult O q sb1 with
+      | ok rb =>
+        rw [hrb] at hsame
+        simp only [Outcome.bind, Outcome.ok.injEq] at hsame
+        simp only [finalResult, hrb, hlim, bind, Outcome.bind, pure, hsame]
+      | error e => rw [hrb] at hsame; simp [Outcome.bind] at hsame
+      | panic e => rw [hrb] at hsame; simp [Outcome.bind] at hsame
+      | oracleMissing e => rw [hrb] at hsame; simp [Outcome.bind] at hsame
+  · have hadm' : anyResult l.row = false := by simpa using hadm
+    rw [executeLine_agg_not_admitted O qy q idx true esf l hq hlim hadm'] at hf
+    rw [executeLine_agg_not_admitted O qy q idx false esb l hq hlim hadm'] at hb
+    simp only [Outcome.ok.injEq, Prod.mk.injEq] at hf hb
+    obtain ⟨hf1, hf2⟩ := hf
+    obtain ⟨hb1, _⟩ := hb
+    subst hf1; subst hf2; subst hb1
+    exact ⟨⟨S, h, hS⟩, Or.inr ⟨rfl, rfl, rfl⟩⟩
+
+/-! ### any number of lines -/
+
+/-- the group keys the lines present to the statement (over all join partners) -/
+def lineKeys (O : Oracles) (qy : Query) (q : AggStmt) (idx : JoinIndex) (lines : List Line) : List (List Value) :=
+  lines.flatMap (fun l => match lineEnvs qy idx false l with
+    | .ok envs => groupKeysOf O q (envs.map (·.1))
+    | _ => [])
+
+theorem lineKeys_cons_mem {O : Oracles} {qy : Query} {q : AggStmt} {idx : JoinIndex} {l : Line} {rest : List Line}
+    {envs : List (Env × List String)} (h : lineEnvs qy idx false l = .ok envs) :
+    ∀ k ∈ groupKeysOf O q (envs.map (·.1)), k ∈ lineKeys O qy q idx (l :: rest) := by
+  intro k hk
+  simp only [lineKeys, List.flatMap_cons, List.mem_append, h]
+  exact Or.inl hk
+
+theorem feedLines_snoc_ok {O : Oracles} {qy : Query} {idx : JoinIndex} {w : Bool} (a : List Line) (l : Line) {es es2 : EngineState}
+    {los : List LineOut} (h : feedLines O qy idx w (a ++ [l]) es = (los, .ok es2)) :
+    ∃ los0 es1 lo, feedLines O qy idx w a es = (los0, .ok es1) ∧ executeLine O qy idx w es1 l = .ok (es2, lo) ∧
+      los = los0 ++ [lo] := by
+  induction a generalizing es los with
+  | nil =>
+    simp only [List.nil_append, feedLines] at h
+    cases he : executeLine O qy idx w es l with
+    | ok p =>
+      obtain ⟨e1, lo⟩ := p
+      rw [he] at h
+      simp only [Prod.mk.injEq, Outcome.ok.injEq] at h
+      obtain ⟨h1, h2⟩ := h
+      subst h1; subst h2
+      exact ⟨[], es, lo, rfl, he, rfl⟩
+    | error k => rw [he] at h; simp at h
+    | panic k => rw [he] at h; simp at h
+    | oracleMissing k => rw [he] at h; simp at h
+  | cons x rest ih =>
+    simp only [List.cons_append, feedLines] at h
+    cases he : executeLine O qy idx w es x with
+    | ok p =>
+      obtain ⟨e1, lo1⟩ := p
+      rw [he] at h
+      simp only [Prod.mk.injEq] at h
+      obtain ⟨h1, h2⟩ := h
+      obtain ⟨los0, es1, lo, h3, h4, h5⟩ := ih (es := e1) (los := (feedLines O qy idx w (rest ++ [l]) e1).1)
+        (by rw [← h2])
+      refine ⟨lo1 :: los0, es1, lo, ?_, h4, ?_⟩
+      · simp only [feedLines, he, h3]
+      · rw [← h1, h5]; rfl
+    | error k => rw [he] at h; simp at h
+    | panic k => rw [he] at h; simp at h
+    | oracleMissing k => rw [he] at h; simp at h
+
+/-- after the same lines, fed line by line with the default configuration on the one hand and with the update-only
+configuration on the other, the two aggregation states are similar -/
+theorem feed_sim {O : Oracles} {qy : Query} {q : AggStmt} (hq : qy.stmt = .aggregate q) (hlim : q.limit = none)
+    (idx : JoinIndex) (lines : List Line) {esf esb esf' esb' : EngineState} {losf losb : List LineOut} {S K : List (List Value)}
+    (h : Sim2 q esf.agg esb.agg S) (hS : ∀ k ∈ S, k ∈ K) (hK : ∀ k ∈ lineKeys O qy q idx lines, k ∈ K) (hex : KeysExact K)
+    (hf : feedLines O qy idx true lines esf = (losf, .ok esf')) (hb : feedLines O qy idx false lines esb = (losb, .ok esb')) :
+    ∃ S', Sim2 q esf'.agg esb'.agg S' ∧ ∀ k ∈ S', k ∈ K := by
+  induction lines generalizing esf esb S losf losb with
+  | nil =>
+    simp only [feedLines, Prod.mk.injEq, Outcome.ok.injEq] at hf hb
+    rw [← hf.2, ← hb.2]
+    exact ⟨S, h, hS⟩
+  | cons l rest ih =>
+    simp only [feedLines] at hf hb
+    cases hef : executeLine O qy idx true esf l with
+    | ok pf =>
+      cases heb : executeLine O qy idx false esb l with
+      | ok pb =>
+        obtain ⟨ef1, lof⟩ := pf
+        obtain ⟨eb1, lob⟩ := pb
+        rw [hef] at hf
+        rw [heb] at hb
+        simp only [Prod.mk.injEq] at hf hb
+        obtain ⟨⟨S1, hs1, hS1⟩, _⟩ := line_sim hq hlim idx l h hS
+          (fun envs he => fun k hk => hK k (lineKeys_cons_mem he k hk)) hex hef heb
+        have hKrest : ∀ k ∈ lineKeys O qy q idx rest, k ∈ K := by
+          intro k hk
+          apply hK
+          simp only [lineKeys, List.flatMap_cons, List.mem_append]
+          exact Or.inr hk
+        exact ih hs1 hS1 hKrest (losf := (feedLines O qy idx true rest ef1).1) (losb := (feedLines O qy idx false rest eb1).1)
+          (by rw [← hf.2]) (by rw [← hb.2])
+      | error k => rw [heb] at hb; simp at hb
+      | panic k => rw [heb] at hb; simp at hb
+      | oracleMissing k => rw [heb] at hb; simp at hb
+    | error k => rw [hef] at hf; simp at hf
+    | panic k => rw [hef] at hf; simp at hf
+    | oracleMissing k => rw [hef] at hf; simp at hf
+
+/-- **C11, aggregate half, WITH OR WITHOUT A JOIN, engine level.** Lines `pre ++ [l]` fed one at a time with the default
+configuration (update + result) and, separately, with the update-only configuration, for any join index; no LIMIT; exact
+group keys. Then the k-th answer of the first run either carries a table — and that table is what `execute_result` shows
+after the second run, i.e. the batch table over the first k lines (also when the k-th line has several join partners) —
+or it carries none and the second run's aggregation state is the one it had after the first k−1 lines. -/
+theorem follow_feed_kth {O : Oracles} {qy : Query} {q : AggStmt} (hq : qy.stmt = .aggregate q) (hlim : q.limit = none)
+    (idx : JoinIndex) (pre : List Line) (l : Line) {esf esb : EngineState} {losf losb : List LineOut}
+    (hf : feedLines O qy idx true (pre ++ [l]) {} = (losf, .ok esf))
+    (hb : feedLines O qy idx false (pre ++ [l]) {} = (losb, .ok esb))
+    (hex : KeysExact (lineKeys O qy q idx (pre ++ [l]))) :
+    ∃ los0 lo esf0 losb0 esb0, losf = los0 ++ [lo] ∧ feedLines O qy idx true pre {} = (los0, .ok esf0) ∧
+      feedLines O qy idx false pre {} = (losb0, .ok esb0) ∧
+      ((∃ out, lo.result = some out ∧ finalResult O q esb = .ok out) ∨ (lo.result = none ∧ esb.agg = esb0.agg)) := by
+  obtain ⟨los0, esf0, lo, hf0, hfl, hlos⟩ := feedLines_snoc_ok pre l hf
+  obtain ⟨losb0, esb0, lob, hb0, hbl, _⟩ := feedLines_snoc_ok pre l hb
+  have hKpre : ∀ k ∈ lineKeys O qy q idx pre, k ∈ lineKeys O qy q idx (pre ++ [l]) := by
+    intro k hk
+    simp only [lineKeys, List.flatMap_append, List.mem_append]
+    exact Or.inl hk
+  obtain ⟨S, hsim, hS⟩ := feed_sim hq hlim idx pre (sim2_init q) (K := lineKeys O qy q idx (pre ++ [l]))
+    (fun k hk => by simp at hk) hKpre hex hf0 hb0
+  have hKl : ∀ envs, lineEnvs qy idx false l = .ok envs →
+      ∀ k ∈ groupKeysOf O q (envs.map (·.1)), k ∈ lineKeys O qy q idx (pre ++ [l]) := by
+    intro envs he k hk
+    simp only [lineKeys, List.flatMap_append, List.mem_append, List.flatMap_cons, List.flatMap_nil, List.append_nil, he]
+    exact Or.inr hk
+  obtain ⟨_, hcase⟩ := line_sim hq hlim idx l hsim hS hKl hex hfl hbl
+  refine ⟨los0, lo, esf0, losb0, esb0, hlos, hf0, hb0, ?_⟩
+  rcases hcase with h1 | ⟨h1, _, h3⟩
+  · exact Or.inl h1
+  · exact Or.inr ⟨h1, h3⟩
+
+/-! ### the batch side as the executed `runBatch` -/
+
+theorem agg_batch_answer {O : Oracles} {qy : Query} {q : AggStmt} (hq : qy.stmt = .aggregate q) (hlim : q.limit = none)
+    {idx : JoinIndex} {es es1 : EngineState} {l : Line} {lo : LineOut}
+    (h : executeLine O qy idx false es l = .ok (es1, lo)) : lo = { result := none, reachedLimit := false } := by
+  by_cases hadm : anyResult l.row = true
+  · rw [executeLine_batch_join O qy q idx es l hq hadm] at h
+    obtain ⟨envs, _, h⟩ := obind_ok h
+    obtain ⟨p, _, h⟩ := obind_ok h
+    simp only [Outcome.ok.injEq, Prod.mk.injEq] at h
+    exact h.2.symm
+  · rw [executeLine_agg_not_admitted O qy q idx false es l hq hlim (by simpa using hadm)] at h
+    simp only [Outcome.ok.injEq, Prod.mk.injEq] at h
+    exact h.2.symm
+
+/-- the loop state after `n` lines of a batch run of an aggregate statement that ended in the engine state `es` -/
+def afterFeed (ls : LoopState) (es : EngineState) (n : Nat) : LoopState :=
+  { ls with es := es, consumed := ls.consumed + n, out := { ls.out with totalLines := ls.out.totalLines + n } }
+
+/-- one file of the executed batch loop of an aggregate statement, for any join index, is the update-only feed of its
+lines — and a failing feed is a reported failure -/
+theorem runFile_agg_feed (O : Oracles) (qy : Query) (q : AggStmt) (hq : qy.stmt = .aggregate q) (hlim : q.limit = none)
+    (idx : JoinIndex) (lines : List Line) (ls : LoopState) :
+    (∀ es', (feedLines O qy idx false lines ls.es).2 = .ok es' →
+      runFile O qy idx false none (asFile lines) ls = afterFeed ls es' lines.length) ∧
+    ((∀ es', (feedLines O qy idx false lines ls.es).2 ≠ .ok es') →
+      (runFile O qy idx false none (asFile lines) ls).stop = true ∧
+      hasFailed (runFile O qy idx false none (asFile lines) ls).out = true) := by
+  induction lines generalizing ls with
+  | nil =>
+    refine ⟨?_, fun h => absurd rfl (h ls.es)⟩
+    intro es' h
+    simp only [feedLines, Outcome.ok.injEq] at h
+    subst h
+    simp [runFile, asFile, afterFeed]
+  | cons l rest ih =>
+    have hnone : (none == some ls.consumed) = false := rfl
+    simp only [asFile, List.map_cons, runFile, hnone, Bool.false_eq_true, if_false, Bool.not_true, feedLines]
+    cases he : executeLine O qy idx false ls.es l with
+    | ok p =>
+      obtain ⟨es1, lo⟩ := p
+      have hlo := agg_batch_answer hq hlim he
+      subst hlo
+      have he' : executeLine O qy idx false
+          { ls with consumed := ls.consumed + 1, out := { ls.out with totalLines := ls.out.totalLines + 1 } }.es l =
+          .ok (es1, { result := none, reachedLimit := false }) := he
+      simp only [he', List.append_nil, Bool.false_eq_true, if_false]
+      obtain ⟨ih1, ih2⟩ := ih { ls with consumed := ls.consumed + 1, out := { ls.out with totalLines := ls.out.totalLines + 1 }, es := es1 }
+      refine ⟨?_, ?_⟩
+      · intro es' h
+        have := ih1 es' h
+        simp only [asFile] at this
+        rw [this]
+        simp only [afterFeed, List.length_cons]
+        have e1 : ls.out.totalLines + 1 + rest.length = ls.out.totalLines + (rest.length + 1) := by omega
+        have e2 : ls.consumed + 1 + rest.length = ls.consumed + (rest.length + 1) := by omega
+        rw [e1, e2]
+      · intro h
+        have := ih2 h
+        simpa only [asFile] using this
+    | error k =>
+      have he' : executeLine O qy idx false
+          { ls with consumed := ls.consumed + 1, out := { ls.out with totalLines := ls.out.totalLines + 1 } }.es l = .error k := he
+      simp [he', failWith, hasFailed]
+    | panic k =>
+      have he' : executeLine O qy idx false
+          { ls with consumed := ls.consumed + 1, out := { ls.out with totalLines := ls.out.totalLines + 1 } }.es l = .panic k := he
+      simp [he', failWith, hasFailed]
+    | oracleMissing k =>
+      have he' : executeLine O qy idx false
+          { ls with consumed := ls.consumed + 1, out := { ls.out with totalLines := ls.out.totalLines + 1 } }.es l = .oracleMissing k := he
+      simp [he', failWith, hasFailed]
+
+/-- **the executed batch run** of an aggregate statement (no LIMIT) over one file, whose join (if any) loaded into `idx`,
+and which reports no failure: it is the update-only feed of the lines followed by one `finalResult`, printed once -/
+theorem runBatch_agg_feed (O : Oracles) (qy : Query) (q : AggStmt) (hq : qy.stmt = .aggregate q) (hlim : q.limit = none)
+    (joined : List FileLine) (idx : JoinIndex) (hidx : joinOutcome qy joined = .ok idx) (lines : List Line)
+    (h : hasFailed (runBatch O qy joined [asFile lines] none) = false) :
+    ∃ los es r, feedLines O qy idx false lines {} = (los, .ok es) ∧ finalResult O q es = .ok r ∧
+      runBatch O qy joined [asFile lines] none = { printed := printResult r true, totalLines := lines.length } := by
+  have hl : reachedLimit qy {} = false := by simp [reachedLimit, hq]
+  obtain ⟨h1, h2⟩ := runFile_agg_feed O qy q hq hlim idx lines {}
+  rw [runBatch_eq_runWithIndex, hidx] at h ⊢
+  simp only [runWithIndex, hq, Bool.not_true, runFiles, hl, Bool.or_self, Bool.false_eq_true, if_false] at h ⊢
+  cases hfe : (feedLines O qy idx false lines ({} : LoopState).es).2 with
+  | ok es =>
+    have hrun := h1 es hfe
+    rw [hrun] at h ⊢
+    have hs : (afterFeed {} es lines.length).stop = false := rfl
+    simp only [hs, Bool.false_eq_true, if_false] at h ⊢
+    have ho : hasFailed (afterFeed {} es lines.length).out = false := rfl
+    simp only [ho, Bool.false_eq_true, if_false] at h ⊢
+    have hes : (afterFeed {} es lines.length).es = es := rfl
+    rw [hes] at h ⊢
+    cases hfin : finalResult O q es with
+    | ok r =>
+      refine ⟨(feedLines O qy idx false lines {}).1, es, r, ?_, hfin, ?_⟩
+      · have : ({} : LoopState).es = ({} : EngineState) := rfl
+        rw [this] at hfe
+        rw [← hfe]
+      · simp [afterFeed]
+    | error k => rw [hfin] at h; simp [failWith, hasFailed, afterFeed] at h
+    | panic k => rw [hfin] at h; simp [failWith, hasFailed, afterFeed] at h
+    | oracleMissing k => rw [hfin] at h; simp [failWith, hasFailed, afterFeed] at h
+  | error k =>
+    obtain ⟨hs, hf⟩ := h2 (by intro es' he; rw [hfe] at he; cases he)
+    simp only [hs, if_true, hf] at h
+    cases h
+  | panic k =>
+    obtain ⟨hs, hf⟩ := h2 (by intro es' he; rw [hfe] at he; cases he)
+    simp only [hs, if_true, hf] at h
+    cases h
+  | oracleMissing k =>
+    obtain ⟨hs, hf⟩ := h2 (by intro es' he; rw [hfe] at he; cases he)
+    simp only [hs, if_true, hf] at h
+    cases h
+
+theorem runBatch_agg_of_feed (O : Oracles) (qy : Query) (q : AggStmt) (hq : qy.stmt = .aggregate q) (hlim : q.limit = none)
+    (joined : List FileLine) (idx : JoinIndex) (hidx : joinOutcome qy joined = .ok idx) (lines : List Line)
+    {los : List LineOut} {es : EngineState} {r : RowOut}
+    (hfe : feedLines O qy idx false lines {} = (los, .ok es)) (hfin : finalResult O q es = .ok r) :
+    runBatch O qy joined [asFile lines] none = { printed := printResult r true, totalLines := lines.length } := by
+  have hl : reachedLimit qy {} = false := by simp [reachedLimit, hq]
+  obtain ⟨h1, _⟩ := runFile_agg_feed O qy q hq hlim idx lines {}
+  have hrun := h1 es (by
+    have : ({} : LoopState).es = ({} : EngineState) := rfl
+    rw [this, hfe])
+  rw [runBatch_eq_runWithIndex, hidx]
+  simp only [runWithIndex, hq, Bool.not_true, runFiles, hl, Bool.or_self, Bool.false_eq_true, if_false]
+  rw [hrun]
+  have hs : (afterFeed {} es lines.length).stop = false := rfl
+  have ho : hasFailed (afterFeed {} es lines.length).out = false := rfl
+  have hes : (afterFeed {} es lines.length).es = es := rfl
+  simp only [hs, Bool.false_eq_true, if_false, ho, hes, hfin]
+  simp [afterFeed]
+
+theorem finalResult_same_agg (O : Oracles) (q : AggStmt) {e1 e2 : EngineState} (h : e1.agg = e2.agg) :
+    finalResult O q e1 = finalResult O q e2 := by
+  simp only [finalResult, h]
+
+/-- **C11, aggregate half, with or without a JOIN; follow side = the line-at-a-time feed (the `incr` driver), batch side =
+the executed `runBatch`.** The join (if any) loaded into `idx`; the feed of the first k lines with the default
+configuration does not fail; the batch run over the same lines reports no failure; no LIMIT; exact group keys. Then the
+answer for the k-th line either carries a table, and printing it is exactly what the batch run over the first k lines
+prints — for a line with several join partners too — or it carries none, and the batch run over the first k lines prints
+what the batch run over the first k−1 lines prints. -/
+theorem follow_join_kth_line {O : Oracles} {qy : Query} {q : AggStmt} (hq : qy.stmt = .aggregate q) (hlim : q.limit = none)
+    (joined : List FileLine) (idx : JoinIndex) (hidx : joinOutcome qy joined = .ok idx) (pre : List Line) (l : Line)
+    {esf : EngineState} {losf : List LineOut}
+    (hf : feedLines O qy idx true (pre ++ [l]) {} = (losf, .ok esf))
+    (hb : hasFailed (runBatch O qy joined [asFile (pre ++ [l])] none) = false)
+    (hex : KeysExact (lineKeys O qy q idx (pre ++ [l]))) :
+    ∃ lo, losf = (feedLines O qy idx true pre {}).1 ++ [lo] ∧
+      ((∃ out, lo.result = some out ∧
+          (runBatch O qy joined [asFile (pre ++ [l])] none).printed = printResult out true) ∨
+       (lo.result = none ∧
+          (runBatch O qy joined [asFile (pre ++ [l])] none).printed = (runBatch O qy joined [asFile pre] none).printed ∧
+          hasFailed (runBatch O qy joined [asFile pre] none) = false)) := by
+  obtain ⟨losb, esb, r, hfb, hfin, hrun⟩ := runBatch_agg_feed O qy q hq hlim joined idx hidx _ hb
+  obtain ⟨los0, lo, esf0, losb0, esb0, hlos, hf0, hb0, hcase⟩ := follow_feed_kth hq hlim idx pre l hf hfb hex
+  refine ⟨lo, by rw [hf0]; exact hlos, ?_⟩
+  rcases hcase with ⟨out, hout, hres⟩ | ⟨hnone, hagg⟩
+  · left
+    rw [hfin] at hres
+    simp only [Outcome.ok.injEq] at hres
+    subst hres
+    exact ⟨r, hout, by rw [hrun]⟩
+  · right
+    have hfin0 : finalResult O q esb0 = .ok r := by rw [← finalResult_same_agg O q hagg]; exact hfin
+    have hrun0 := runBatch_agg_of_feed O qy q hq hlim joined idx hidx pre hb0 hfin0
+    refine ⟨hnone, by rw [hrun, hrun0], by rw [hrun0]; rfl⟩
 
 end Sqlgrep
